@@ -16,7 +16,7 @@ PASSED=$(echo "$T_OUT" | grep "^test result" | sed 's/.*ok\. \([0-9]*\) passed.*
 FAILED=$(echo "$T_OUT" | grep -c "FAILED")
 bash -c "$DEMO" > /tmp/confirm-with-$$.log 2>&1; DW=$?
 bash -c "$CLEAN" >/dev/null 2>&1
-git checkout -q -- .
+git apply -R seeded_out/patch.diff; git checkout -q -- .
 bash -c "$DEMO" > /tmp/confirm-without-$$.log 2>&1; DWO=$?
 bash -c "$CLEAN" >/dev/null 2>&1
 git checkout -q -- .
